@@ -320,7 +320,8 @@ def _kill_children():
 def _write_replay(prop, seed, idx, rs, clause, original, r):
     d = os.path.join(kernel.VERIF, "replays", prop)
     os.makedirs(d, exist_ok=True)
-    name = "%d-%s-%s.json" % (seed, ("run%d" % idx) if idx >= 0 else "leg", clause.replace(".", "_"))
+    sig8 = hashlib.sha256(feature_sig(r["failure"]).encode("utf-8")).hexdigest()[:8]
+    name = "%d-%s-%s-%s.json" % (seed, ("run%d" % idx) if idx >= 0 else "leg", clause.replace(".", "_"), sig8)
     path = os.path.join(d, name)
     doc = {
         "property": prop,
